@@ -75,7 +75,7 @@ theorem inv_job_rmJ_cons {cfg : Cfg} {s : St} {d : Disk} (h : Inv cfg s d) {j : 
   · intro hr
     refine (h.run hr).rmJ j' n (hnj hr) ?_ hmfd' hlimbo'
     intro hfp
-    have hfp' : j'.kind = .flush → j'.pc.beforeCommit = true := hfp
+    have hfp' : j'.kind = .flush → j'.pc.uninstalled = true := hfp
     rcases hok.kind_running hr with hk | hk
     · exact nomatch (hfp' hk)
     · exact hnotc hk
